@@ -19,6 +19,7 @@ import (
 	txv3 "github.com/onosproject/onos-config/pkg/store/v3/transaction"
 	"github.com/onosproject/onos-lib-go/pkg/errors"
 
+	"verif/engine"
 	"verif/fw"
 )
 
@@ -973,11 +974,11 @@ func init() {
 	kinds := []string{"v2/transaction", "v2/proposal", "v2/configuration", "v3/configuration"}
 	fw.Register(&fw.Check{ID: "C15", Level: "exploration", Race: true,
 		Technique: "runtime monitoring under the Go race detector: concurrent create / get / update / update-status / watch / cancel histories by 4..7 client goroutines on 2..3 store objects of one Atomix cluster; porcupine linearizability check per key against a versioned compare-and-set register (unique tags identify writes); version / index monotonicity; counted watcher-completeness drain; abandoned and cancelled consumers",
-		Rule:      "each case = one history of ~300 operations on 3..5 keys for one store kind (v2 transaction, proposal, configuration; v3 configuration) or one v3 transaction-store scenario (per-target logs, racing status updates, List across targets, cancel while events flow); distinct_nontrivial = distinct (store, keys, clients, store objects) shapes",
+		Rule:      "each case = one history of ~300 operations on 3..5 keys for one store kind (v2 transaction, proposal, configuration; v3 configuration) or one v3 transaction-store scenario (per-target logs, racing status updates, List across targets, cancel while events flow); every tenth case is an in-vivo history of the whole system under the race detector (watcher completeness of the controllers' own watchers, race reports); distinct_nontrivial = distinct (store, keys, clients, store objects) shapes",
 		Assumptions: []string{"the Atomix in-memory test runtime is a faithful Atomix; watchers subscribed before the writers start are given 150 ms to register on every partition (the Atomix client returns from Events after the first partition's acknowledgement)",
 			"an operation that failed with an error other than conflict / already-exists / not-found is left out of the history (it may or may not have taken effect); none was observed in development"},
 		DistinctSet: "history_shape", CaseTimeout: 300e9,
-		Floors:      map[string]int64{"operations": 8000, "histories_checked": 40, "live_watchers_complete": 150, "racing_update_pairs": 200, "stale_updates_refused": 1000, "updates_accepted": 1000},
+		Floors: map[string]int64{"operations": 8000, "histories_checked": 40, "live_watchers_complete": 150, "racing_update_pairs": 200, "stale_updates_refused": 1000, "updates_accepted": 1000, "in_vivo_histories": 5, "watcher_final_versions_checked": 100},
 		Cases: func(tier string) int {
 			if tier == "thorough" {
 				return 3000
@@ -987,6 +988,19 @@ func init() {
 		Run: func(c *fw.Case) {
 			if c.Index == 0 {
 				c15SubscribeDuringWrites(c, 400)
+				return
+			}
+			if c.Index%10 == 9 {
+				// in vivo: one history of the whole system (real controllers, handlers, fan-out to their watchers) under
+				// the race detector; reported here: race reports, watchers that were never shown the latest version
+				// of a record, gaps in the transaction log
+				p := &engine.Profile{Targets: []string{"t1", "t2"}, MinOps: 5, MaxOps: 10, PMulti: 35, PPoison: 12, PEq: 10, PDevReject: 8, PDelete: 30,
+					PRollback: 15, PEnv: 25, PNoWait: 60, PSync: 25, PStartOffline: 25, PDevFault: 10, Paths: "rich"}
+				if e := s2Run(c, "C15", p); e != nil {
+					c.Count("in_vivo_histories", 1)
+					c.Class("in-vivo")
+					c.Distinct("history_shape", "in-vivo")
+				}
 				return
 			}
 			if c.Index%7 == 6 {
